@@ -95,6 +95,7 @@ pub struct Interp<'c, K: KeyT, V: ValT> {
     trace: bool,
     c13: bool,
     transcript: bool,
+    size_cap: usize,
     pub c13_max_ratio: u64,
     pub basic_ops: u64,
 }
@@ -161,6 +162,7 @@ where
             trace: case.h("trace") != 0,
             c13: case.h("c13") != 0,
             transcript: case.h("transcript") != 0,
+            size_cap: case.h_or("size_cap", 3000) as usize,
             c13_max_ratio: 0,
             basic_ops: 0,
         }
@@ -221,6 +223,12 @@ where
 
     pub fn exec(&mut self, op: &Op) -> Result<(), Bad> {
         let a = op.a;
+        // bounded table sizes: growing macro-operations are skipped above the case's size cap
+        if self.slots[self.cur].model.len() > self.size_cap
+            && matches!(op.code, ops::FILL_EXACT | ops::FILL_TO_CAPACITY | ops::REHASH_SETUP | ops::RESERVE | ops::RESERVE_TO_BOUNDARY | ops::MIRROR_TO_OTHER)
+        {
+            return Ok(());
+        }
         match op.code {
             ops::INSERT => {
                 let k = self.kid(a[0]);
@@ -459,7 +467,7 @@ where
                 // allocator call (capacity() itself may rise when tombstones are reused).
                 let room = {
                     let s = &self.slots[self.cur];
-                    (s.map.capacity() - s.map.len()).min(4096)
+                    (s.map.capacity() - s.map.len()).min(2048)
                 };
                 let st0 = alloc::stats();
                 for j in 0..room {
@@ -1368,7 +1376,9 @@ where
                 .filter(|e| e.id >= self.universe)
                 .map(|e| e.id)
                 .collect();
-            for id in fresh {
+            // (bounded: the contents comparison of check_state already covers every stored pair)
+            let stride = (fresh.len() / 48).max(1);
+            for id in fresh.into_iter().step_by(stride) {
                 self.lookup(si, id, 1)?;
             }
         }
@@ -1444,7 +1454,7 @@ where
             Err(payload) => {
                 let msg = world::last_panic_message().unwrap_or_else(|| "<no message>".into());
                 let injected = payload.downcast_ref::<Injected>().is_some();
-                std::mem::forget(payload);
+                drop(payload);
                 return Err(Violation {
                     property: self.panic_prop,
                     kind: "unexpected-panic".into(),
@@ -1573,7 +1583,7 @@ where
         let slots = std::mem::take(&mut self.slots);
         let r = catch_unwind(AssertUnwindSafe(move || drop(slots)));
         if let Err(p) = r {
-            std::mem::forget(p);
+            drop(p);
             let msg = world::last_panic_message().unwrap_or_default();
             return (
                 out,
